@@ -27,6 +27,7 @@ def qevName : QEv → String
   | .bpChanged => "breakpoint.changed" | .bpRemoved => "breakpoint.removed"
   | .progressStart n => "progressStart." ++ toString n | .progressUpdate n => "progressUpdate." ++ toString n
   | .progressEnd n => "progressEnd." ++ toString n | .invalidated => "invalidated"
+  | .initialized => "initialized"
 
 def evName : Ev → String
   | .q e => qevName e
